@@ -11,6 +11,12 @@ TECH = ("bounded symbolic execution of the real go/ssa code (gosym) with SMT (z3
 
 # id -> (level text, level note, design ref)
 CLAIMS = {
+ "C01": ("For symbolic flat IR (1 controller x 1 route with rich slash structure in prefix and route; 2 controllers x 1 route and 1 controller x 2 routes with plain shapes; verb, hidden, deprecated symbolic) "
+         "the in-memory documents produced by the real swagen30 and swagen31 GenerateControllersSpec contain an operation at (path, verb) iff a visible route normalises there (reference byte-loop normaliser); "
+         "unique operations carry the route's operationId, its own controller's tag and deprecated flag; hidden routes never contribute; nothing else is documented.",
+         "Bounds as coded in harness/.../generator/swagen/zz_verif_c01.go. Gate assumption: routes whose templates differ only in parameter names are excluded (kin-openapi validation rejects them: 'conflicting paths', so no document is emitted). "
+         "Outside: discovery of controllers/methods in source (go/ast, go/types), JSON encoding of the in-memory document.",
+         "DESIGN.md 4 (C01)"),
  "C06": ("For every validator string up to the stated length over the tag alphabet, every pointer-ness and every parameter location, "
          "the real appendParamRequiredValidation + IsFieldRequired agree with the requiredness rule of the property (solver-decided per path, "
          "all paths of the bound explored).",
